@@ -1,4 +1,6 @@
 import EgVerif.Proofs.ConnCap
+import EgVerif.Proofs.ConnCapIR
+import EgVerif.Proofs.ConnCapLive
 import EgVerif.Gen.FactsC17
 /-!
 # C17 — connection caps hold at every instant (HTTP servers and the MQTT proxy)
@@ -264,6 +266,171 @@ theorem mqtt_accept_below_cap {m m' : Mq} {o : MOut} {conn cid : Nat} (hbelow : 
     (hs : mstep m (MAct.locked conn) = some (m', o)) : o = MOut.accepted ∧ m'.clients = cid :: m.clients := by
   simp only [mstep, hp, hnew, hbelow, Bool.false_eq_true, if_false] at hs
   cases hs; exact ⟨rfl, rfl⟩
+
+/-! ### Several `SetMaxCount` calls in flight (Extension cluster)
+
+`cap_holds` / `setmax_applied` speak about quiet states. The theorems below hold in **every**
+reachable state, i.e. for any sequence of `SetMaxCount` calls, accepts and closes with any number of
+adjustment goroutines not yet run (`pending`) or parked in the weighted semaphore's queue. -/
+
+/-- total of the shrink amounts among the spawned, not yet executed adjustments -/
+def pendingShrink : List (Nat × Int) → Int
+  | [] => 0
+  | p :: r => (if p.2 < 0 then -p.2 else 0) + pendingShrink r
+
+theorem pendSum_ge_neg_shrink (l : List (Nat × Int)) : -pendingShrink l ≤ pendSum l := by
+  induction l with
+  | nil => simp [pendingShrink, pendSum]
+  | cons p r ih => simp only [pendingShrink, pendSum]; split <;> omega
+
+theorem pendSum_nonneg_of_all_grow (l : List (Nat × Int)) (h : ∀ p ∈ l, 0 ≤ p.2) : 0 ≤ pendSum l := by
+  induction l with
+  | nil => simp [pendSum]
+  | cons p r ih =>
+    have := h p (List.mem_cons_self ..)
+    have := ih (fun q hq => h q (List.mem_cons_of_mem _ hq))
+    simp only [pendSum]; omega
+
+/-- **inflight_bookkeeping.** In every reachable state — whatever `SetMaxCount` calls are in flight —
+the capacity carved out of the semaphore differs from the configured one by exactly the adjustments
+not yet executed minus the shrinks parked in the queue: no adjustment is ever lost, duplicated or
+cancelled. (seeded/C17-m3 breaks exactly this: a later call cancels a parked shrink.) -/
+theorem inflight_bookkeeping {n₀ : Int} (h0 : 0 ≤ n₀) {c : Cap} (r : Reach n₀ c) :
+    c.effCap = c.realCap - pendSum c.pending + adjSum c.waiters := by
+  have := (reach_inv h0 r).book; omega
+
+/-- **inflight_overshoot_bounded.** At every instant the connections holding a unit exceed the
+configured `maxConnections` by at most the total of the shrinks that are still outstanding (spawned
+and not yet run, or parked behind open connections). -/
+theorem inflight_overshoot_bounded {n₀ : Int} (h0 : 0 ≤ n₀) {c : Cap} (r : Reach n₀ c) :
+    ((c.inAccept.length + c.opened.length : Nat) : Int) ≤ c.realCap + pendingShrink c.pending + adjSum c.waiters := by
+  have h1 := (http_inv h0 r).2.2
+  have h2 := inflight_bookkeeping h0 r
+  have h3 := pendSum_ge_neg_shrink c.pending
+  omega
+
+/-- **cap_holds_while_growing.** While only *grow* adjustments are in flight (any number, in any
+order) and no shrink is parked, the cap holds at every instant — `cap_holds` without waiting for
+the goroutines. -/
+theorem cap_holds_while_growing {n₀ : Int} (h0 : 0 ≤ n₀) {c : Cap} (r : Reach n₀ c)
+    (hgrow : ∀ p ∈ c.pending, 0 ≤ p.2) (hpark : c.waiters.all (·.kind != WKind.adj) = true) :
+    ((c.inAccept.length + c.opened.length : Nat) : Int) ≤ c.realCap := by
+  have h1 := (http_inv h0 r).2.2
+  have h2 := inflight_bookkeeping h0 r
+  have h3 := pendSum_nonneg_of_all_grow _ hgrow
+  have h4 : adjSum c.waiters = 0 := by
+    have : ∀ ws : List Waiter, ws.all (·.kind != WKind.adj) = true → adjSum ws = 0 := by
+      intro ws
+      induction ws with
+      | nil => intro _; rfl
+      | cons w rr ih =>
+        intro hall
+        simp only [List.all_cons, Bool.and_eq_true, bne_iff_ne, ne_eq] at hall
+        simp only [adjSum, if_neg hall.1, ih hall.2]; rfl
+    exact this _ hpark
+  omega
+
+theorem reach_adjPos {n₀ : Int} {c : Cap} (r : Reach n₀ c) : AdjPos c := by
+  induction r with
+  | init => exact adjPos_new n₀
+  | step a _ hs ih => exact adjPos_step ih hs
+
+/-- **parked_shrink_applied_by_close.** A shrink parked at the head of the weighted semaphore's queue
+(more connections open than the new cap) is applied by the `Close` that frees enough room for it: the
+capacity carved out of the semaphore drops by at least its weight — no further `SetMaxCount`, accept
+or write is needed, only connections closing. -/
+theorem parked_shrink_applied_by_close {n₀ : Int} (h0 : 0 ≤ n₀) {c c' : Cap} {id i : Nat} {k : Int}
+    {rest : List Waiter} (r : Reach n₀ c) (hw : c.waiters = ⟨i, k, WKind.adj⟩ :: rest)
+    (ho : id ∈ c.opened) (hfit : k ≤ M - c.cur + 1) (hs : step c (Act.connClose id) = some c') :
+    c'.effCap ≤ c.effCap - k :=
+  close_applies_parked_shrink (reach_inv h0 r) (reach_adjPos r) hw ho hfit hs
+
+/-- Non-vacuity: cap 2, two connections open, shrink to 1 parks at the head; one `Close` applies it. -/
+example :
+    let c := run (newCap 2) [.acquire 0, .acceptDone 0, .acquire 1, .acceptDone 1, .setMax 1, .adjust 0]
+    c.waiters = [⟨0, 1, WKind.adj⟩] ∧ 0 ∈ c.opened ∧ (1 : Int) ≤ M - c.cur + 1 ∧ c.effCap = 2 ∧
+    (step c (.connClose 0)).map (·.effCap) = some 1 := by decide
+
+/-- the slip of seeded/C17-m3 in the model: a new `SetMaxCount` drops the shrinks parked in the queue -/
+private def supersede (c : Cap) : Cap := { c with waiters := c.waiters.filter (·.kind != WKind.adj) }
+
+/-- Non-vacuity / sharpness: cap 3 with 3 connections open, `SetMaxCount(1)` parks a shrink of 2,
+`SetMaxCount(2)` grows by 1. Unchanged code: in-flight identity holds (effCap 4 = 2 − 0 + 2), the
+overshoot bound is 2 + 0 + 2, and after two closes the cap is 2. With the parked shrink dropped the
+state is quiet with effCap = 4 ≠ realCap = 2 — `setmax_commutes` and the identity fail. -/
+example :
+    let pre := run (newCap 3) [.acquire 0, .acceptDone 0, .acquire 1, .acceptDone 1, .acquire 2, .acceptDone 2,
+                               .acquire 3, .setMax 1, .adjust 0]
+    let ok := run pre [.setMax 2, .adjust 1]
+    let bad := run (supersede pre) [.setMax 2, .adjust 1]
+    (ok.effCap = 4 ∧ ok.realCap = 2 ∧ pendSum ok.pending = 0 ∧ adjSum ok.waiters = 2 ∧ quiet ok = false) ∧
+    (run ok [.connClose 0, .connClose 1]).effCap = 2 ∧
+    (bad.effCap = 4 ∧ bad.realCap = 2 ∧ quiet bad = true) := by decide
+
+/-! ### Tie by translation (regenerated on every run, `notes/IR.md`) -/
+
+/-- `Gen.FactsC17IR.setMaxCountIR` is re-translated on every run from the current body of
+`Semaphore.SetMaxCount` *including the body of the goroutine it spawns* (recorded `Release` /
+`Acquire` / `close(done)`); it is the hand-written `setMaxCount` on every input. -/
+theorem setMaxCount_regenerated_from_source (realCap n : Int) :
+    Gen.FactsC17IR.extractionFailed = false ∧ Gen.FactsC17IR.setMaxCountIR realCap n = setMaxCount realCap n :=
+  ⟨by decide, ConnCap.setMaxCount_regenerated_from_source realCap n⟩
+
+/-- `LimitListener.Accept`: (returns a connection, units of the semaphore it still holds). -/
+theorem accept_regenerated_from_source (acquired ctxErr innerErr : Bool) :
+    Gen.FactsC17IR.extractionFailed = false ∧
+    Gen.FactsC17IR.acceptIR acquired ctxErr innerErr = acceptBody acquired ctxErr innerErr :=
+  ⟨by decide, ConnCap.accept_regenerated_from_source acquired ctxErr innerErr⟩
+
+/-- `limitListenerConn.Close`: `release` is called through the `sync.Once` exactly when it has not fired. -/
+theorem connClose_regenerated_from_source (once : Bool) :
+    Gen.FactsC17IR.extractionFailed = false ∧
+    Gen.FactsC17IR.connCloseIR once =
+      ((connCloseBody once).1, List.replicate (connCloseBody once).2 Gen.FactsC17IR.OnceFn.release) :=
+  ⟨by decide, ConnCap.connClose_regenerated_from_source once⟩
+
+/-- `LimitListener.Close`: the context is cancelled through `closeOnce` at most once. -/
+theorem listenerClose_regenerated_from_source (once : Bool) :
+    Gen.FactsC17IR.extractionFailed = false ∧
+    Gen.FactsC17IR.listenerCloseIR once =
+      ((connCloseBody once).1, List.replicate (connCloseBody once).2 Gen.FactsC17IR.OnceFn.cancel) :=
+  ⟨by decide, ConnCap.listenerClose_regenerated_from_source once⟩
+
+/-- **step_built_from_translated_code.** The transition function all theorems above speak about is
+built from the translated functions: `setMax` = `setMaxCount`'s synchronous part with the stored
+difference `n - old`, `adjust` = the recorded goroutine actions `adjBody d 0` applied to the weighted
+semaphore, `connClose` releases `(connCloseBody once).2` units, and an `Accept` call keeps one unit
+iff it returns a connection (the `inAccept` unit becomes the `opened` unit). -/
+theorem step_built_from_translated_code :
+    (∀ (c : Cap) (n : Int), 0 ≤ n → n ≤ M →
+      step c (.setMax n) = some { c with realCap := (setMaxCount c.realCap n).1,
+                                         pending := c.pending ++ [(c.nextAdj, n - c.realCap)],
+                                         nextAdj := c.nextAdj + 1 } ∧
+      (setMaxCount c.realCap n).2 = adjBody (n - c.realCap) 0) ∧
+    (∀ (c : Cap) (id : Nat), step c (.adjust id) =
+      match takeAdj id c.pending with
+      | none => none
+      | some (d, rest) => applyAdjOps { c with pending := rest } id (adjBody d 0)) ∧
+    (∀ (c c' : Cap) (id : Nat), step c (.connClose id) = some c' → (id ∈ c.opened → id ∉ c.closed) →
+      (decide (id ∈ c.closed) = false →
+        c' = semRelease { c with opened := c.opened.erase id, closed := id :: c.closed }
+               ((connCloseBody (decide (id ∈ c.closed))).2 : Int)) ∧
+      (decide (id ∈ c.closed) = true → c' = c ∧ (connCloseBody (decide (id ∈ c.closed))).2 = 0)) ∧
+    (∀ acquired ctxErr innerErr : Bool, (acquired = false → ctxErr = true) →
+      (acceptBody acquired ctxErr innerErr).2 = (if (acceptBody acquired ctxErr innerErr).1 then 1 else 0) ∧
+      (acceptBody acquired ctxErr innerErr).1 = (!ctxErr && !innerErr)) :=
+  ⟨setMax_step_is_setMaxCount, adjust_step_is_adjBody, connClose_is_connCloseBody,
+   fun a c i h => ⟨accept_units a c i h, accept_returns_iff a c i⟩⟩
+
+/-- a request above `maxCapacity` is clamped -/
+theorem setMaxCount_clamped (realCap n : Int) (h : n > M) : setMaxCount realCap n = setMaxCount realCap M :=
+  ConnCap.setMaxCount_clamped realCap n h
+
+/-- Non-vacuity: shrink 5 → 2 records `Acquire(3)` then `close(done)`; grow 2 → 5 records `Release(3)`;
+an `Accept` whose inner accept fails gives its unit back. -/
+example : setMaxCount 5 2 = (2, [AdjOp.acquire 3, AdjOp.done]) ∧ setMaxCount 2 5 = (5, [AdjOp.release 3, AdjOp.done]) ∧
+    setMaxCount 2 2 = (2, [AdjOp.done]) ∧ acceptBody true false true = (false, 0) ∧
+    acceptBody true false false = (true, 1) ∧ connCloseBody false = (true, 1) ∧ connCloseBody true = (true, 0) := by decide
 
 /-! ### Facts regenerated from the source on every run -/
 
